@@ -60,8 +60,9 @@ type muxOp struct {
 	bad    bool
 	badPID uint16
 	// Data
-	pes *ref.PES
-	af  *ref.AF
+	pes      *ref.PES
+	af       *ref.AF
+	strayOpt bool // hand an optional header struct to the Muxer although the stream id (0xBE/0xBF) has none
 	// Packet
 	pkt *astits.Packet
 }
@@ -223,6 +224,7 @@ func drawMuxOp(t *rapid.T, prof muxProfile) muxOp {
 			afSize = op.af.Size()
 		}
 		drawMuxPayload(t, prof, op.pes, afSize)
+		op.strayOpt = gen.Bool(t, "strayopt")
 	case opPacket:
 		m := gen.TSPacket(t, "wp")
 		m.PID = 0x1f00 + uint16(rapid.IntRange(0, 15).Draw(t, "wppid"))
@@ -532,12 +534,21 @@ func runMuxHistory(period int, setPeriod bool, ops []muxOp, w *writerSpy, noReAd
 			d := &astits.MuxerData{PID: pid, PES: conv.PESStruct(op.pes, false, op.pes.Payload, 0)}
 			if !hasOptHeaderLib(op.pes.StreamID) {
 				d.PES.Header.OptionalHeader = nil
+				if op.strayOpt {
+					// padding_stream / private_stream_2 have no optional header: a struct supplied anyway must not be written
+					d.PES.Header.OptionalHeader = &astits.PESOptionalHeader{MarkerBits: 2, PTSDTSIndicator: 2, PTS: &astits.ClockReference{Base: 0x1fffffffe}}
+				}
 			}
 			if op.af != nil {
 				d.AdaptationField = conv.AFStruct(op.af, false)
 				st.forceRAP = op.af.RAI && pid == cfg.pcr
 				st.afTooBig = op.af.Size() > 184
-				st.afFits = op.af.Size()+op.pes.HeaderSize() <= 184
+				// the Muxer reserves room for the optional header struct it was handed, even when the stream id has none
+				reserve := op.pes.HeaderSize()
+				if !hasOptHeaderLib(op.pes.StreamID) && op.strayOpt {
+					reserve += 8
+				}
+				st.afFits = op.af.Size()+reserve <= 184
 			} else {
 				st.afFits = true
 			}
